@@ -265,6 +265,26 @@ def validate_both(unit, element, p):
     return ff, craised, errs
 
 
+def forest_errors(parents):
+    """Validate several parents in ONE validate.tree walk into ONE list (a neutral root holds them): returns
+    (raised, {id(parent): [codes attributed to that parent]}).  The outcome for a parent must not depend on what the
+    same walk / the same list saw before it."""
+    from metapype.model.node import Node
+    from metapype.eml import validate
+    root = Node("zzForestRoot")
+    for p in parents:
+        root.add_child(p)
+    errs = []
+    try:
+        validate.tree(root, errs)
+    except Exception as e:  # noqa: BLE001
+        return e, {}
+    by = {}
+    for e in errs:
+        by.setdefault(id(e[2]), []).append(e)
+    return None, by
+
+
 def judge(verdict, ff, craised, errs):
     """Clauses of C01 violated by this outcome (list of (clause, exc))."""
     from metapype.eml.exceptions import MetapypeRuleError
@@ -310,6 +330,32 @@ def w_words(items):
             e = f":{type(exc).__name__}" if exc is not None else ""
             out.append((f"{clause}{e}:{unit}", f"{unit} ({element}) children {list(word)}: verdict {verdict}; fail-fast {ff!r}; collecting raised {craised!r}, codes {[x[0].name for x in errs]}",
                         {"kind": "word", "unit": unit, "element": element, "word": list(word), "verdict": verdict}))
+    # the same words again, 12 parents of one rule per validate.tree walk (forward and reversed order): a parent's
+    # verdict must not depend on the parents the walk has already seen
+    groups = {}
+    for (unit, element, word) in items:
+        if element and unit != "@metadata":
+            groups.setdefault((unit, element), []).append(word)
+    for (unit, element), words in groups.items():
+        d = G["dfas"][unit]
+        for lo in range(0, len(words), 12):
+            batch = words[lo:lo + 12]
+            for order in (batch, batch[::-1]):
+                parents = [realise(unit, element, w, rules) for w in order]
+                raised, by = forest_errors(parents)
+                Node.store.clear()
+                if raised is not None:
+                    out.append((f"forest:collecting-mode-raised:{type(raised).__name__}:{unit}", repr(raised), {"kind": "forest", "unit": unit, "element": element, "words": [list(w) for w in order]}))
+                    continue
+                for w, p in zip(order, parents):
+                    verdict = d.out[d.run(w)]
+                    codes = [e[0].name for e in by.get(id(p), [])]
+                    childfam = [c for c in codes if c in CHILD_CODES]
+                    if (verdict == "ACCEPT" and codes) or (verdict == "REJECT" and not childfam):
+                        out.append((f"forest:{'valid-sequence-rejected' if verdict == 'ACCEPT' else 'invalid-sequence-accepted'}:{unit}",
+                                    f"{unit} ({element}) children {list(w)}: verdict {verdict}, but inside one validate.tree walk over {len(order)} parents of this rule the parent got codes {codes}",
+                                    {"kind": "forest", "unit": unit, "element": element, "words": [list(x) for x in order], "word": list(w), "verdict": verdict}))
+                n += len(order)
     return n, out, counts
 
 
@@ -393,6 +439,7 @@ def run(rep, tier, seed):
         per_unit[unit] = {"automaton_states": len(d.states), "minimal_states": d.minimal_states, "alphabet": nsig,
                           "extra_states_k": k, "W": len(d.W), "suite_words": len(words), "w_method_words": wm, "sampled": trunc, "accepted_random_walks": len(lw)}
     rnd.shuffle(items)
+    items.sort(key=lambda it: (it[0], str(it[1])))          # a worker gets runs of words of one rule (forest walks need them together)
     G.update(rules=rules, dfas=dfas, elem1={ru: [e for e in els if e != "metadata"][0] for ru, els in elements.items() if [e for e in els if e != "metadata"]})
     res = parallel(w_words, items)
     n = 0
